@@ -25,6 +25,7 @@ type Case struct {
 	K       int    `json:"k"`
 	Addr    int    `json:"addr"` // queried address (lookup) / -1
 	RTU     bool   `json:"rtu"`
+	Order   string `json:"field_order,omitempty"` // extract: "", "reversed", "last-only"
 }
 
 type local struct{ evals, inside int64 }
@@ -104,6 +105,22 @@ func evalExtract(c Case, res *ev.Result, lc *local) {
 	for i := 0; i < n && c.Start+i <= 65535; i++ {
 		fields = append(fields, modbus.Field{Name: fmt.Sprint(i), ServerAddress: "s", UnitID: 1, Address: uint16(c.Start + i), Type: modbus.FieldTypeCoil})
 	}
+	offsetOf := func(i int) int { return i }
+	switch c.Order {
+	case "reversed": // the highest address first
+		for a, b := 0, len(fields)-1; a < b; a, b = a+1, b-1 {
+			fields[a], fields[b] = fields[b], fields[a]
+		}
+		nf := len(fields)
+		offsetOf = func(i int) int { return nf - 1 - i }
+	case "last-only": // a request whose only field is the last coil of the window
+		fields = fields[len(fields)-1:]
+		nf := n
+		if c.Start+n > 65536 {
+			nf = 65536 - c.Start
+		}
+		offsetOf = func(i int) int { return nf - 1 }
+	}
 	br := modbus.BuilderRequest{ServerAddress: "s", UnitID: 1, StartAddress: uint16(c.Start), Fields: fields}
 	var resp packet.Response
 	if c.RTU {
@@ -129,7 +146,7 @@ func evalExtract(c Case, res *ev.Result, lc *local) {
 	}
 	for i, fv := range vals {
 		cc := c
-		cc.Addr = c.Start + i
+		cc.Addr = c.Start + offsetOf(i)
 		b, _ := fv.Value.(bool)
 		judge(cc, data, b, fv.Error, "", res, lc)
 	}
@@ -286,6 +303,10 @@ func run(tier string, shard, nsh int, res *ev.Result) {
 						for _, pat := range []string{"pos", "onehot", "onecold"} {
 							for _, k := range []int{0, 7, 8, 8*L - 1} {
 								evalExtract(Case{Part: "extract", API: "BuilderRequest.ExtractFields", Len: L, Start: s, Pattern: pat, K: k, RTU: rtu}, res, lc)
+								if L <= 2 || k == 0 {
+									evalExtract(Case{Part: "extract", API: "BuilderRequest.ExtractFields", Len: L, Start: s, Pattern: pat, K: k, RTU: rtu, Order: "reversed"}, res, lc)
+									evalExtract(Case{Part: "extract", API: "BuilderRequest.ExtractFields", Len: L, Start: s, Pattern: "ones", K: k, RTU: rtu, Order: "last-only"}, res, lc)
+								}
 							}
 						}
 					}
